@@ -60,9 +60,29 @@ def r1(run, ctx):
         raise AnalysisError('C08 R1: unrecognised _SIGNALS_NAMES form')
     regd = posix.split()
     sigs = cls.attr('SIGNALS')
-    run.check('R1', sigs is not None and '_SIGNALS_NAMES.split()' in norm_text(sigs) and
-              astq.has_pattern(sigs, "[getattr(signal, 'SIG%s' % $x) for $x in _SIGNALS_NAMES.split()]"), 'SIGNALS is built from every listed name', None,
-              'SysHandler.SIGNALS')
+    def built_from_names(e):
+        # [getattr(signal, <'SIG' joined with x>) for x in _SIGNALS_NAMES.split()], however
+        # the name is assembled (%, +, format, f-string)
+        if not (isinstance(e, (ast.ListComp, ast.GeneratorExp)) or
+                (isinstance(e, ast.Call) and dotted(e.func) in ('list', 'tuple') and e.args and
+                 isinstance(e.args[0], (ast.ListComp, ast.GeneratorExp)))):
+            return False
+        comp = e if isinstance(e, (ast.ListComp, ast.GeneratorExp)) else e.args[0]
+        if len(comp.generators) != 1 or comp.generators[0].ifs or \
+                not isinstance(comp.generators[0].target, ast.Name) or \
+                norm_text(comp.generators[0].iter) != '_SIGNALS_NAMES.split()':
+            return False
+        var = comp.generators[0].target.id
+        el = comp.elt
+        if not (isinstance(el, ast.Call) and dotted(el.func) == 'getattr' and len(el.args) == 2
+                and norm_text(el.args[0]) == 'signal'):
+            return False
+        parts = list(ast.walk(el.args[1]))
+        return any(isinstance(x, ast.Constant) and isinstance(x.value, str) and
+                   x.value.startswith('SIG') for x in parts) and \
+            any(isinstance(x, ast.Name) and x.id == var for x in parts)
+    run.check('R1', sigs is not None and built_from_names(sigs),
+              'SIGNALS is built from every listed name', None, 'SysHandler.SIGNALS')
     reg = ctx.fn(H + '_register')
     cfg = ctx.cfg(reg)
     inst = [n for n in ctx.live_nodes(reg) if any(
@@ -83,7 +103,19 @@ def r1(run, ctx):
     run.check('R1', sn is not None and astq.has_pattern(sn, '$n[3:].lower()'),
               'SIG_NAMES maps SIGX to x', None, 'SysHandler.SIG_NAMES')
     sig = ctx.fn(H + 'signal')
-    run.check('R1', astq.has_pattern(sig.node, "getattr(self, 'handle_%s' % $s)"),
+    def dispatch_lookup(fnode):
+        # getattr(self, <'handle_' joined with the signal's name>[, default]), however the
+        # attribute name is assembled
+        for x in ast.walk(fnode):
+            if isinstance(x, ast.Call) and dotted(x.func) == 'getattr' and len(x.args) in (2, 3) \
+                    and norm_text(x.args[0]) == 'self':
+                parts = list(ast.walk(x.args[1]))
+                if any(isinstance(y, ast.Constant) and isinstance(y.value, str) and
+                       y.value.startswith('handle_') for y in parts) and \
+                        any(isinstance(y, ast.Name) for y in parts):
+                    return True
+        return False
+    run.check('R1', dispatch_lookup(sig.node),
               'the handler dispatches to handle_<name>', sig, sig.node)
     quit_ = ctx.fn(H + 'quit')
     for s in ('INT', 'TERM', 'QUIT'):
@@ -202,6 +234,14 @@ def r3(run, ctx):
 
     def nonempty(e):
         if isinstance(e, ast.Compare) and 'len(self.sockets)' in norm_text(e.left):
+            return True
+        # "there is something to close": <the object> is not None / truthy
+        if isinstance(e, ast.Compare) and len(e.ops) == 1 and \
+                isinstance(e.ops[0], (ast.Is, ast.IsNot)) and \
+                astq.const_value(e.comparators[0], 0) is None and \
+                any(k in norm_text(e.left) for k in ('evpub_socket', 'ctrl', 'sockets')):
+            return isinstance(e.ops[0], ast.IsNot)
+        if isinstance(e, ast.Attribute) and e.attr in ('evpub_socket', 'ctrl', 'sockets'):
             return True
         return None
     for name, ns in want.items():
@@ -408,8 +448,23 @@ def r6(run, ctx):
                 for nxt, lab in cfg.succ[k.id]:
                     if lab == 'exc':
                         exc_after |= cfg.reach(cfg.nodes[nxt], include_src=True)
-            run.check('R6', ok and n.id not in exc_after, 'a pid is reported live only after a '
-                      'successful kill(pid, 0)', v, n.ast,
+            # ... or from the handler of a probe that failed with EPERM: the process exists
+            # and belongs to somebody else
+            def eperm(e):
+                if isinstance(e, ast.Compare) and len(e.ops) == 1:
+                    names = {dotted(x) for x in [e.left] + list(e.comparators)}
+                    if 'errno.EPERM' in names and isinstance(e.ops[0], (ast.Eq, ast.NotEq)):
+                        return isinstance(e.ops[0], ast.Eq)
+                    c0 = e.comparators[0]
+                    if isinstance(e.ops[0], (ast.In, ast.NotIn)) and \
+                            isinstance(c0, (ast.Tuple, ast.List, ast.Set)) and \
+                            [dotted(x) for x in c0.elts] == ['errno.EPERM']:
+                        return isinstance(e.ops[0], ast.In)
+                return None
+            via_eperm = n.id in exc_after and guarded(cfg, n, eperm, True)
+            run.check('R6', ok and (n.id not in exc_after or via_eperm),
+                      'a pid is reported live only after a successful kill(pid, 0) (or one '
+                      'refused with EPERM)', v, n.ast,
                       'validate can report a pid as live without a successful probe')
             run.check('R6', isinstance(n.ast.value, ast.Name) and any(
                 isinstance(c.args[0], ast.Name) and c.args[0].id == n.ast.value.id
@@ -480,6 +535,12 @@ def r6(run, ctx):
                 isinstance(c, ast.Call) and dotted(c.func) == 'os.kill'
                 for st in t.body for c in ast.walk(st)):
             for h in t.handlers:
+                hn_ = [dotted(e) for e in h.type.elts] if isinstance(h.type, ast.Tuple) else \
+                    [dotted(h.type)] if h.type is not None else ['*']
+                if not any(x in ('*', 'Exception', 'BaseException', 'OSError', 'IOError',
+                                 'EnvironmentError', 'PermissionError', 'ProcessLookupError')
+                           for x in hn_):
+                    continue      # not an answer of the kernel (OverflowError: no such pid_t)
                 stale = stale_errnos(h)
                 run.check('R6', stale == {'errno.ESRCH'},
                           'a failed liveness probe means "stale" only for ESRCH; any other error '
@@ -511,7 +572,8 @@ def r6(run, ctx):
     cfg = ctx.cfg(c)
     val = ctx.nodes_calling(c, [v.key])
     raises = [n for n in ctx.live_nodes(c) if n.kind == 'stmt' and isinstance(n.ast, ast.Raise)
-              and 'stale' in norm_text(n.ast)]
+              and n.ast.exc is not None and
+              guarded(cfg, n, lambda e: True if norm_text(e) == 'oldpid' else None, True)]
     opens = [n for n in ctx.live_nodes(c) if any(dotted(x.func) in ('os.open', 'open',
                                                                    'tempfile.mkstemp')
                                                  for x in n.calls())]
